@@ -9,9 +9,29 @@ from ..core import norm, call_name, is_self_attr
 
 
 def _reads_pos(cls, node, depth=0, seen=None):
+    return bool(_deps(cls, node, depth, seen))
+
+
+def _deps(cls, node, depth=0, seen=None):
+    """which of the moving quantities (node .pos, column .centre) the expression reads"""
+    seen = seen or set()
+    out = set()
+    for x in ast.walk(node):
+        if isinstance(x, ast.Attribute) and x.attr in ('pos', 'centre') and not is_self_attr(x): out.add(x.attr)
+        if isinstance(x, ast.Attribute) and isinstance(x.value, ast.Name) and x.value.id == 'self' and depth < 3:
+            g = cls.properties.get(x.attr) if hasattr(cls, 'properties') else None
+            gname = g if isinstance(g, str) else getattr(g, 'name', None)
+            m = cls.methods.get(gname) if gname else cls.methods.get('get_' + x.attr)
+            if m is not None and m.name not in seen:
+                seen.add(m.name)
+                out |= _deps(cls, m.node, depth + 1, seen)
+    return out
+
+
+def _reads_pos_old(cls, node, depth=0, seen=None):
     seen = seen or set()
     for x in ast.walk(node):
-        if isinstance(x, ast.Attribute) and x.attr == 'pos': return True
+        if isinstance(x, ast.Attribute) and x.attr in ('pos', 'centre') and not is_self_attr(x): return True
         if isinstance(x, ast.Attribute) and isinstance(x.value, ast.Name) and x.value.id == 'self' and depth < 3:
             g = cls.properties.get(x.attr) if hasattr(cls, 'properties') else None
             gname = g if isinstance(g, str) else getattr(g, 'name', None)
@@ -47,17 +67,39 @@ def lazy_caches(classes):
                 # a *presence test* of attribute A (self.A is None / not self.A / getattr(self, 'A', None) is None /
                 # not hasattr(self, 'A') / try: self.A except AttributeError) whose "absent" branch assigns self.A from node positions
                 if m.name == '__init__' or not isinstance(n, (ast.If, ast.Try)): continue
+                # locals that stand for an attribute of self: L = self.A / L = getattr(self, 'A', None)
+                alias = {}
+                for st in ast.walk(m.node):
+                    if isinstance(st, ast.Assign) and len(st.targets) == 1 and isinstance(st.targets[0], ast.Name):
+                        v = st.value
+                        if is_self_attr(v): alias[st.targets[0].id] = v.attr
+                        elif isinstance(v, ast.Call) and isinstance(v.func, ast.Name) and v.func.id == 'getattr' and len(v.args) >= 2 and \
+                                isinstance(v.args[0], ast.Name) and v.args[0].id == 'self' and isinstance(v.args[1], ast.Constant):
+                            alias[st.targets[0].id] = v.args[1].value
                 if isinstance(n, ast.If):
                     mentioned = _presence_tested(n.test)
+                    for x in ast.walk(n.test):           # presence test on an alias
+                        if isinstance(x, ast.Compare) and isinstance(x.left, ast.Name) and x.left.id in alias and len(x.ops) == 1 and \
+                           isinstance(x.ops[0], (ast.Is, ast.Eq)) and isinstance(x.comparators[0], ast.Constant) and x.comparators[0].value is None:
+                            mentioned.add(alias[x.left.id])
+                        if isinstance(x, ast.UnaryOp) and isinstance(x.op, ast.Not) and isinstance(x.operand, ast.Name) and x.operand.id in alias:
+                            mentioned.add(alias[x.operand.id])
                     region = n.body + n.orelse
                 else:
                     if not any(h.type is None or 'AttributeError' in ast.unparse(h.type) for h in n.handlers): continue
                     mentioned = set(x.attr for st in n.body for x in ast.walk(st) if is_self_attr(x))
                     region = [st for h in n.handlers for st in h.body]
-                for s in [s for st in region for s in ast.walk(st) if isinstance(s, ast.Assign)]:
-                    for t in s.targets:
-                        if is_self_attr(t) and t.attr in mentioned and _reads_pos(c, s.value) and (c, t.attr, m) not in [(x[0], x[1], x[2]) for x in out]:
-                            out.append((c, t.attr, m, n))
+                # values assigned to locals inside the region (so `self.A = L` counts with L's value)
+                local_vals = {}
+                for s_ in [s_ for st in region for s_ in ast.walk(st) if isinstance(s_, ast.Assign)]:
+                    for t in s_.targets:
+                        if isinstance(t, ast.Name): local_vals[t.id] = s_.value
+                for s_ in [s_ for st in region for s_ in ast.walk(st) if isinstance(s_, ast.Assign)]:
+                    for t in s_.targets:
+                        val = s_.value
+                        if isinstance(val, ast.Name) and val.id in local_vals: val = local_vals[val.id]
+                        if is_self_attr(t) and t.attr in mentioned and _reads_pos(c, val) and (c, t.attr, m) not in [(x[0], x[1], x[2]) for x in out]:
+                            out.append((c, t.attr, m, n, _deps(c, val)))
     return out
 
 
@@ -69,8 +111,8 @@ def pos_writers(funcs):
             t = None
             if isinstance(n, ast.Assign): t = n.targets
             elif isinstance(n, ast.AugAssign): t = [n.target]
-            if t and any(isinstance(x, ast.Attribute) and x.attr == 'pos' and not is_self_attr(x) for x in t):
-                out.append((fi, n)); break
+            w = [x.attr for x in (t or []) if isinstance(x, ast.Attribute) and x.attr in ('pos', 'centre') and not is_self_attr(x)]
+            if w: out.append((fi, n, set(w)))
     return out
 
 
@@ -93,13 +135,13 @@ def cacheinv(classes, funcs):
     caches = lazy_caches(classes)
     writers = pos_writers(funcs)
     bad = []
-    for c, a, m, n in caches:
-        for w, st in writers:
-            if not resets(w, a, classes): bad.append((a, m, w, st))
+    for c, a, m, n, deps in caches:
+        for w, st, wattrs in writers:
+            if (deps & wattrs) and not resets(w, a, classes): bad.append((a, m, w, st))
     return bad, caches, writers
 
 
-def cacheinv_rule(run, modname, rule='CACHEINV'):
+def cacheinv_rule(run, modname, rule='CACHEINV', only=None):
     import os
     from ..core import ModuleInfo, VERIF
     prog = run.prog
@@ -107,6 +149,9 @@ def cacheinv_rule(run, modname, rule='CACHEINV'):
     classes = list(mod.classes.values())
     funcs = [f for f in mod.all_functions()]
     bad, caches, writers = cacheinv(classes, funcs)
+    if only is not None:
+        bad = [b for b in bad if only(b[1])]
+        caches = [c for c in caches if only(c[2])]
     # positive control
     fx = ModuleInfo('cache_fixture', os.path.join(VERIF, 'fixtures'))
     fb, _, _ = cacheinv([fx.classes['badcolumn'], fx.classes['badgrid']], list(fx.classes['badgrid'].methods.values()))
@@ -119,4 +164,4 @@ def cacheinv_rule(run, modname, rule='CACHEINV'):
                      'the memo: after it, searches use the bounding box / polygon of the old position and miss or mis-assign columns'
                      % (m.short, a, w.short, norm(st)[:60]), where=w.where(st), rule=rule)
     else:
-        run.ok(key, {'memoised attributes': sorted(set(a for c, a, m, n in caches)), 'position writers': sorted(w.short for w, st in writers)}, rule=rule)
+        run.ok(key, {'memoised attributes': sorted(set(x[1] for x in caches)), 'position writers': sorted(set(x[0].short for x in writers))}, rule=rule)
